@@ -145,9 +145,77 @@ theorem partialCut_spec (p : Bytes) (s l : Int) (hs : 0 ≤ s) (hl : 0 ≤ l) :
     simp [List.drop_eq_nil_of_le this]
 
 /-! ## the address cut of `parseAddressList` -/
-/-- `name = addr[:start]`, `email = addr[start+1:end]` when a `<` precedes the first `>`; otherwise the whole text is the address -/
+/-- `indexUnquoted`: the first `c` that is not inside a quoted string (where a backslash quotes the next octet) -/
+def indexUnq (c : UInt8) : Bytes → Bool → Option Nat
+  | [], _ => none
+  | x :: xs, q =>
+    if x = b_bs ∧ q = true then
+      match xs with
+      | _ :: ds => (indexUnq c ds q).map (· + 2)
+      | [] => none
+    else if x = b_dq then (indexUnq c xs (!q)).map (· + 1)
+    else if x = c ∧ q = false then some 0
+    else (indexUnq c xs q).map (· + 1)
+
+theorem indexUnq_spec (c : UInt8) (s : Bytes) (q : Bool) (i : Nat) (h : indexUnq c s q = some i) :
+    s = s.take i ++ c :: s.drop (i + 1) := by
+  fun_induction indexUnq c s q generalizing i
+  case case1 => cases h
+  case case3 => cases h
+  case case5 hx => cases h; obtain ⟨rfl, _⟩ := hx; simp
+  case case2 ih =>
+    simp only [Option.map_eq_some_iff] at h
+    obtain ⟨j, hj, rfl⟩ := h
+    have := ih j hj
+    show _ = List.take (j + 1 + 1) _ ++ c :: List.drop (j + 1 + 1 + 1) _
+    simp only [List.take_succ_cons, List.drop_succ_cons, List.cons_append]
+    rw [← this]
+  all_goals
+    rename_i ih
+    simp only [Option.map_eq_some_iff] at h
+    obtain ⟨j, hj, rfl⟩ := h
+    have := ih j hj
+    simp only [List.take_succ_cons, List.drop_succ_cons, List.cons_append]
+    rw [← this]
+
+theorem indexUnq_lt (c : UInt8) (s : Bytes) (q : Bool) (i : Nat) (h : indexUnq c s q = some i) : i < s.length := by
+  have h1 := congrArg List.length (indexUnq_spec c s q i h)
+  simp only [List.length_append, List.length_cons, List.length_take, List.length_drop] at h1
+  omega
+theorem indexByte_spec (c : UInt8) : ∀ (s : Bytes) (i : Nat), indexByte c s = some i →
+    s = s.take i ++ c :: s.drop (i + 1) ∧ c ∉ s.take i
+  | [], _, h => by simp [indexByte] at h
+  | x :: xs, i, h => by
+    unfold indexByte at h
+    split at h
+    · rename_i hx; cases h; subst hx; simp
+    · rename_i hx
+      cases hq : indexByte c xs with
+      | none => simp [hq] at h
+      | some j =>
+        simp [hq] at h; subst h
+        obtain ⟨h1, h2⟩ := indexByte_spec c xs j hq
+        refine ⟨?_, ?_⟩
+        · simp only [List.take_succ_cons, List.drop_succ_cons, List.cons_append]
+          rw [← h1]
+        · simp only [List.take_succ_cons, List.mem_cons, not_or]
+          exact ⟨fun e => hx e.symm, h2⟩
+
+theorem indexByte_none (c : UInt8) : ∀ (s : Bytes), indexByte c s = none → c ∉ s
+  | [], _ => by simp
+  | x :: xs, h => by
+    unfold indexByte at h
+    split at h
+    · cases h
+    · rename_i hx
+      cases hq : indexByte c xs with
+      | none => simp only [List.mem_cons, not_or]; exact ⟨fun e => hx e.symm, indexByte_none c xs hq⟩
+      | some j => simp [hq] at h
+
+/-- `name = addr[:start]`, `email = addr[start+1:end]` when an unquoted `<` precedes the first unquoted `>`; otherwise the whole
+text is the address -/
 def addrCut (addr : Bytes) : Option (Bytes × Bytes) :=
-  match indexByte 60 addr, indexByte 62 addr with
+  match indexUnq 60 addr false, indexUnq 62 addr false with
   | some st, some en =>
     if st < en then
       match slice addr 0 st, slice addr (st + 1) en with
@@ -160,7 +228,7 @@ theorem addrCut_total (addr : Bytes) : (addrCut addr).isSome = true := by
   unfold addrCut
   split
   · rename_i st en h1 h2
-    have := indexByte_lt 62 addr en h2
+    have := indexUnq_lt 62 addr false en h2
     split
     · rename_i hlt
       have a : (slice addr 0 st).isSome = true := by rw [slice_isSome]; omega
@@ -168,6 +236,47 @@ theorem addrCut_total (addr : Bytes) : (addrCut addr).isSome = true := by
       cases ha : slice addr 0 st <;> cases hb : slice addr (↑st + 1) ↑en <;> simp_all
     · rfl
   · rfl
+
+/-- the address cut takes the header text apart without losing or inventing an octet: either the whole text is the address, or
+the text is `name < address > rest` -/
+theorem addrCut_faithful (addr n e : Bytes) (h : addrCut addr = some (n, e)) :
+    (n = [] ∧ e = addr) ∨ (∃ rest, addr = n ++ 60 :: (e ++ 62 :: rest)) := by
+  unfold addrCut at h
+  split at h
+  · rename_i st en h1 h2
+    split at h
+    · rename_i hlt
+      have a1 := indexUnq_spec 60 addr false st h1
+      have b1 := indexUnq_spec 62 addr false en h2
+      have hen := indexUnq_lt 62 addr false en h2
+      have hs1 : slice addr 0 st = some (addr.take st) := by
+        unfold slice
+        have : (0:Int) ≤ 0 ∧ (0:Int) ≤ (st:Int) ∧ (st:Int) ≤ (addr.length:Int) := by omega
+        simp [this]
+      have hs2 : slice addr (st + 1) en = some ((addr.drop (st + 1)).take (en - (st + 1))) := by
+        unfold slice
+        have : (0:Int) ≤ (st:Int) + 1 ∧ (st:Int) + 1 ≤ (en:Int) ∧ (en:Int) ≤ (addr.length:Int) := by omega
+        simp only [this, and_self, if_true]
+        congr 2 <;> omega
+      simp only [hs1, hs2, Option.some.injEq, Prod.mk.injEq] at h
+      obtain ⟨rfl, rfl⟩ := h
+      right
+      refine ⟨addr.drop (en + 1), ?_⟩
+      have hd : addr.drop (st + 1) = (addr.drop (st + 1)).take (en - (st + 1)) ++ (addr.drop (st + 1)).drop (en - (st + 1)) :=
+        (List.take_append_drop _ _).symm
+      have hdd : (addr.drop (st + 1)).drop (en - (st + 1)) = addr.drop en := by
+        rw [List.drop_drop]; congr 1; omega
+      have hde : addr.drop en = 62 :: addr.drop (en + 1) := by
+        have := congrArg (List.drop en) b1
+        rw [List.drop_left' (by simp; omega)] at this
+        exact this
+      rw [hdd, hde] at hd
+      calc addr = addr.take st ++ 60 :: addr.drop (st + 1) := a1
+        _ = _ := by rw [← hd]
+    · simp only [Option.some.injEq, Prod.mk.injEq] at h
+      exact Or.inl ⟨h.1.symm, h.2.symm⟩
+  · simp only [Option.some.injEq, Prod.mk.injEq] at h
+    exact Or.inl ⟨h.1.symm, h.2.symm⟩
 
 def trimQuotes (s : Bytes) : Bytes := trimP (· = b_dq) s
 
@@ -179,6 +288,28 @@ def parseOne (addr : Bytes) : Option (Bytes × Bytes × Bytes) :=
     | some i => (name, e.take i, e.drop (i + 1))
     | none => (name, e, [])
 
+/-- mailbox and host are the address cut at its first `@` (no `@`: all mailbox), the display name is the text before `<`
+without surrounding blanks and quotes -/
+theorem parseOne_faithful (addr name mb host : Bytes) (h : parseOne addr = some (name, mb, host)) :
+    ∃ n e, addrCut addr = some (n, e) ∧ name = trimQuotes (trimSpace n) ∧
+      ((e = mb ++ 64 :: host ∧ 64 ∉ mb) ∨ (64 ∉ e ∧ mb = e ∧ host = [])) := by
+  unfold parseOne at h
+  cases hc : addrCut addr with
+  | none => simp [hc] at h
+  | some p =>
+    obtain ⟨n, e⟩ := p
+    refine ⟨n, e, rfl, ?_⟩
+    simp only [hc, Option.map_some, Option.some.injEq] at h
+    cases hi : indexByte 64 e with
+    | none =>
+      simp only [hi, Prod.mk.injEq] at h
+      obtain ⟨rfl, rfl, rfl⟩ := h
+      exact ⟨rfl, Or.inr ⟨indexByte_none 64 e hi, rfl, rfl⟩⟩
+    | some i =>
+      simp only [hi, Prod.mk.injEq] at h
+      obtain ⟨rfl, rfl, rfl⟩ := h
+      obtain ⟨h1, h2⟩ := indexByte_spec 64 e i hi
+      exact ⟨rfl, Or.inl ⟨h1, h2⟩⟩
 /-- `splitAddressList`: split at the commas that separate addresses — not those inside a quoted display name (where a
 backslash quotes the next octet) or inside angle brackets -/
 def splitAddrAux : Bytes → Bool → Bool → Bytes → List Bytes
@@ -195,6 +326,26 @@ def splitAddrAux : Bytes → Bool → Bool → Bytes → List Bytes
     else splitAddrAux cs q a (c :: cur)
 def splitAddresses (s : Bytes) : List Bytes := splitAddrAux s false false []
 
+theorem splitAddrAux_ne_nil (s : Bytes) (q a : Bool) (cur : Bytes) : splitAddrAux s q a cur ≠ [] := by
+  fun_induction splitAddrAux s q a cur <;> simp_all
+
+theorem joinWith_cons (sep : UInt8) (x : Bytes) (l : List Bytes) (h : l ≠ []) :
+    joinWith sep (x :: l) = x ++ sep :: joinWith sep l := by
+  cases l with
+  | nil => exact absurd rfl h
+  | cons y r => rfl
+
+/-- the split loses nothing: the pieces, put together again with the commas that separated them, are the header value -/
+theorem splitAddrAux_join (s : Bytes) (q a : Bool) (cur : Bytes) :
+    joinWith b_comma (splitAddrAux s q a cur) = cur.reverse ++ s := by
+  fun_induction splitAddrAux s q a cur
+  case case7 ih =>
+    rw [joinWith_cons _ _ _ (splitAddrAux_ne_nil _ _ _ _), ih]
+    simp_all
+  all_goals simp_all [joinWith]
+
+theorem splitAddresses_join (s : Bytes) : joinWith b_comma (splitAddresses s) = s := by
+  simpa [splitAddresses] using splitAddrAux_join s false false []
 /-- the whole list: split at the separating commas, blank entries dropped -/
 def addressList (s : Bytes) : Option (List (Bytes × Bytes × Bytes)) :=
   (((splitAddresses s).map trimSpace).filter (· ≠ [])).mapM parseOne
